@@ -24,6 +24,20 @@ byte stream the socket accepted is cut the RFC 4253 way by the reference receive
 exactly one well-framed packet per send_message call (all clauses below), whatever the order of
 the threads' packets.
 
+Configuration of the sender (generated part, long-lived part, concurrent part): hex dump of the
+traffic off / Transport.set_hexdump(True) / the same with paramiko's logger at DEBUG level and a
+handler attached (lengths up to 9000 bytes there: paramiko formats every byte).  Keepalive timer
+(a separate generated part of its own, collect-then-continue because real time passes, and every
+fourth long-lived sender): Transport.set_keepalive(interval) - paramiko's own callback - or
+Packetizer.set_keepalive(interval, callback) with the same request, intervals 0.5-1 ms with the
+socket's not-ready events (send script -1/-2, recv timeout script) taking 3-4 ms of real time, i.e.
+LONGER than the interval (the timer runs out while a packet is half written), or 50 ms / 1 ms (never
+due); optionally the reference peer sends a message after every k-th packet which the sender reads
+through its recv timeout script: a keepalive that is due there goes out as one more outgoing
+packet.  With a timer armed, everything the socket accepted during one bench call is cut into
+packets: each must pass all clauses and carry the message sent (once) or the keepalive request.  The
+measured sends run under a watchdog: a sender that does not come back is reported (send-hangs).
+
 Oracle on the raw bytes the socket accepted (one chunk per packet), decoded with the
 independent vlib.refssh receiver keyed from the RFC 4253 7.2 letters:
   total = 4 + packet_length + mac_len(table of the negotiated MAC, 16 for GCM);
@@ -31,7 +45,10 @@ independent vlib.refssh receiver keyed from the RFC 4253 7.2 letters:
   encrypted span (whole packet, or packet minus length field for ETM/GCM) is a multiple of
   max(8, bs); the MAC/tag verifies and the payload comes back.
 """
+import contextlib
 import hashlib
+import logging
+import threading
 
 from hypothesis import strategies as st
 
@@ -62,12 +79,111 @@ RULE = (
     "interval, generated per-direction suites, socket send script in 3 of 4 cases; the complete byte stream the socket "
     "accepted must cut into exactly one well-framed packet per send_message call (length field, padding 4..255, block "
     "alignment, MAC/tag length and value, payload = the next message of the thread named in it; the order between "
-    "threads is free). One case = one (keys, earlier exchanges, role, api, length list) or one (keys, role, thread "
-    "plans, switch interval, send script). non-trivial = encrypted "
+    "threads is free). Sender configuration (classes hexdump:off|on|on+debug-logger, keepalive:on, keepalive:via-transport|"
+    "via-packetizer, keepalive:socket-stall>interval, keepalive:due-while-a-packet-is-half-written, keepalive:packets-on-the-wire, "
+    "inbound-traffic-between-sends): the generated, long-lived and concurrent parts draw the hex dump setting (2 of 5 on; lengths "
+    "<= 9000 then); a second generated part (quick 120 cases, no shrinking: real time) arms a keepalive timer through "
+    "Transport.set_keepalive or Packetizer.set_keepalive (interval 0.5-1 ms, not-ready socket events last 3-4 ms, at most 8 per "
+    "sender; or 50 ms / 1 ms = never due), send script in 3 of 4 cases, optional inbound messages after every 1-3 packets read "
+    "through a generated recv timeout script; every fourth long-lived sender has a timer too. With a timer the bytes of one call "
+    "are cut into packets that must each pass every clause and carry the message (once) or the keepalive request; a sender that "
+    "does not return within 10 s (30 s long-lived) is reported as send-hangs. "
+    "One case = one (keys, earlier exchanges, role, api, length list, configuration) or one (keys, role, thread "
+    "plans, switch interval, send script, hexdump). non-trivial = encrypted "
     "suite whose uncompressed payload lengths cover all residues 0..bs-1 (enumeration) or contain a length > 4*bs+8 "
     "(random part) or >= 1000 packets on one sender (long-lived part) or >= 2 threads with >= 2 messages each "
     "(concurrent part); distinct by SHA-1 of the case"
 )
+
+
+# what Transport.set_keepalive's callback sends: global request "keepalive@lag.net", want-reply false
+KEEPALIVE = bytes([80]) + R.string(b"keepalive@lag.net") + b"\x00"
+MAX_STALLS = 8  # not-ready socket events per sender that take real time (cost bound)
+HANG_TIMEOUT = 30.0  # a long-lived sender with a keepalive timer that has not come back after this long hangs (>= 100x the normal time of a case)
+HANG_TIMEOUT_SHORT = 10.0  # the same for a case of <= 6 packets (normal time < 0.1 s)
+
+
+def _watched(fn, timeout):
+    """Run fn() in a helper thread and wait ``timeout`` for it: (result, False) or (None, True) when it
+    is still busy (a keepalive callback that runs inside a write can block for ever on the transport's
+    own locks; that must end as a report, not as a check that never returns)."""
+    box = {}
+
+    def work():
+        try:
+            box["r"] = fn()
+        except BaseException as e:  # re-raised in the caller's thread
+            box["e"] = e
+
+    th = threading.Thread(target=work, daemon=True)
+    th.start()
+    th.join(timeout)
+    if th.is_alive():
+        return None, True
+    if "e" in box:
+        raise box["e"]
+    return box["r"], False
+
+
+class _Counting(logging.Handler):
+    def __init__(self):
+        logging.Handler.__init__(self, logging.DEBUG)
+        self.n = 0
+
+    def emit(self, record):
+        self.n += 1
+        record.getMessage()  # what any real handler does: format the record
+
+
+@contextlib.contextmanager
+def _debug_logger(on):
+    """Configuration "somebody really reads the hex dump": paramiko's transport logger at DEBUG level
+    with a handler attached, for the duration of one case (level / handler restored afterwards)."""
+    if not on:
+        yield None
+        return
+    lg = logging.getLogger("paramiko.transport")
+    h = _Counting()
+    old = lg.level
+    lg.addHandler(h)
+    lg.setLevel(logging.DEBUG)
+    try:
+        yield h
+    finally:
+        lg.setLevel(old)
+        lg.removeHandler(h)
+
+
+def _enable_keepalive(ctx, sender, ka):
+    """ka = [interval, stall, via].  via "transport" (default): Transport.set_keepalive(interval) on the keyed sender (public API; the callback is paramiko's own
+    global_request("keepalive@lag.net", wait=False)).  An un-started Transport is not ``active`` and
+    global_request would return without sending: it is marked active the way start_client does, and
+    only when the key exchange left it clear to send (otherwise the callback would wait for that).
+    The socket's next MAX_STALLS not-ready events take ka[1] seconds each."""
+    t = sender.t
+    if len(ka) > 2 and ka[2] == "packetizer":
+        # the layer below: Packetizer.set_keepalive(interval, callback), the callback sending the same request
+        # through the transport's internal send path (no user-message gate)
+        from paramiko.message import Message
+
+        def request():
+            m = Message()
+            m.add_bytes(KEEPALIVE)
+            t._send_message(m)
+
+        t.packetizer.set_keepalive(ka[0], request)
+        sender.sock.stall = ka[1]
+        sender.sock.stalls_left = MAX_STALLS
+        return True
+    ev = getattr(t, "clear_to_send", None)
+    if ev is None or not ev.is_set() or not hasattr(t, "set_keepalive"):
+        ctx.inconc("keepalive-not-enabled:sender-not-clear-to-send")
+        return False
+    t.active = True
+    t.set_keepalive(ka[0])
+    sender.sock.stall = ka[1]
+    sender.sock.stalls_left = MAX_STALLS
+    return True
 
 
 def _excluded(cipher, mac):
@@ -134,14 +250,32 @@ def _key_exchange(ctx, sender, ref, keys):
 
 def execute(ctx, case):
     """case = {"keys": keys|None, "role": "client"|"server", "api": "send"|"build",
-    "lengths": [...], "seed": int[, "prev": [{"keys": keys, "lengths": [...]}, ...]]}.
+    "lengths": [...], "seed": int[, "prev": [{"keys": keys, "lengths": [...]}, ...]]
+    [, "hexdump": 0|1|2][, "keepalive": [interval_s, stall_s]][, "inbound": {"every": k, "timeouts": [...]}]}.
     keys None = unencrypted initial state; "prev" = earlier key exchanges (and the messages
-    sent under them, checked the same way) before the measured one."""
+    sent under them, checked the same way) before the measured one.  Configuration of the sender:
+    hexdump 1 = Transport.set_hexdump(True), 2 = the same with paramiko's logger at DEBUG level and a
+    handler attached; keepalive = Transport.set_keepalive(interval) for the measured epoch, the socket's
+    not-ready events taking stall_s of real time; inbound = after every k-th packet the reference peer
+    sends a message that the sender reads through a socket with the recv timeout script (a keepalive
+    that is due goes out there - one more outgoing packet that has to be framed like any other)."""
+    with _debug_logger(int(case.get("hexdump") or 0) == 2) as handler:
+        return _execute(ctx, case, handler)
+
+
+def _execute(ctx, case, handler):
     role, api, seed = case["role"], case["api"], case["seed"]
     dname = "c2s" if role == "client" else "s2c"
     other = "server" if role == "client" else "client"
-    sender = pkt.PPeer(role, sends=case.get("sends") or ())
+    hexdump = int(case.get("hexdump") or 0)
+    ka = case.get("keepalive") or None
+    inbound = case.get("inbound") or None
+    sender = pkt.PPeer(role, sends=case.get("sends") or (), timeouts=(inbound or {}).get("timeouts") or ())
+    if hexdump:
+        sender.t.set_hexdump(True)
     ref = pkt.RPeer(other)
+    ka_on = False
+    stats = {"keepalive-packets": 0, "inbound-read": 0}
     prev = case.get("prev") or []
     long_lived = isinstance(case["lengths"], dict)
     epochs = [(e["keys"], _lengths(e["lengths"])) for e in prev] + [(case["keys"], _lengths(case["lengths"]))]
@@ -166,15 +300,31 @@ def execute(ctx, case):
                 short = dict(case, prev=prev[:ei], keys=keys, lengths=[])
                 break
         last = ei == len(epochs) - 1
-        bad, i = _measure(sender, ref, keys, dname, api, lengths, seed + 1000 * (len(epochs) - 1 - ei), residues if last else set())
+        if last and ka and keys is not None and api == "send":
+            ka_on = _enable_keepalive(ctx, sender, ka)
+        args = (sender, ref, keys, dname, api, lengths, seed + 1000 * (len(epochs) - 1 - ei), residues if last else set())
+        kw = dict(ka_on=ka_on and last, inbound=inbound if last and keys is not None else None, stats=stats, ctx=ctx)
+        if kw["ka_on"]:
+            limit = HANG_TIMEOUT if long_lived else HANG_TIMEOUT_SHORT
+            got, hung = _watched(lambda: _measure(*args, **kw), limit)
+            if hung:
+                bad = ("send-hangs", fc + ("+z" if compressed else ""), "send_message / read_message of a sender with keepalive interval %r did not come back within %.0f s (socket not-ready events take %r s)" % (ka[0], limit, ka[1]))
+                short = dict(case, prev=prev[:ei])
+                break
+            bad, i = got
+        else:
+            bad, i = _measure(*args, **kw)
         if bad:
             # report the shortest prefix that still shows it (deterministic given the case)
             short = dict(case, prev=prev[:ei], keys=keys, seed=seed + 1000 * (len(epochs) - 1 - ei))
-            # (state that spans packets - compression, a long-lived sender, a send script - needs the prefix)
-            short["lengths"] = lengths[: i + 1] if (compressed or long_lived or case.get("sends")) else [lengths[i]]
+            # (state that spans packets - compression, a long-lived sender, a send script, keepalive timers - needs the prefix)
+            short["lengths"] = lengths[: i + 1] if (compressed or long_lived or case.get("sends") or ka or inbound) else [lengths[i]]
             break
     send_stats = dict(sender.sock.send_stats)
-    sender.close()
+    stalled = sender.sock.stalled
+    if not (bad and bad[0] == "send-hangs"):
+        sender.t.active = False
+        sender.close()
     keys, lengths = epochs[-1]
     if case.get("enumerated"):
         nontrivial = keys is not None and len(residues) == bs
@@ -189,6 +339,21 @@ def execute(ctx, case):
         classes += pkt.asymmetry_classes(keys)
         classes.append("sender-keyed-in-both-directions")
     classes += pktx.send_classes(send_stats)
+    classes.append("hexdump:" + ("off", "on", "on+debug-logger")[hexdump])
+    if handler is not None and handler.n:
+        classes.append("hexdump:records-logged")
+    if ka:
+        classes.append("keepalive:on" if ka_on else "keepalive:wanted-not-enabled")
+        if ka_on:
+            classes.append("keepalive:via-" + (ka[2] if len(ka) > 2 else "transport"))
+        classes.append("keepalive:socket-stall>interval" if ka[1] > ka[0] else "keepalive:socket-stall<=interval")
+        if ka_on and stalled and send_stats.get("notready-after-partial") and ka[1] > ka[0]:
+            classes.append("keepalive:due-while-a-packet-is-half-written")
+    if stats["keepalive-packets"]:
+        classes.append("keepalive:packets-on-the-wire")
+        ctx.count("keepalive-packets-decoded", stats["keepalive-packets"])
+    if inbound and stats["inbound-read"]:
+        classes.append("inbound-traffic-between-sends")
     if long_lived:
         classes.append("long-lived-sender")
         classes.append("long-lived-sender:%s" % pkt.suite_style(cipher, mac))
@@ -203,8 +368,45 @@ def execute(ctx, case):
     return True
 
 
-def _measure(sender, ref, keys, dname, api, lengths, seed, residues):
+def _cut(ref, data, payload, bs, want_mac, compressed, stats, fail, what):
+    """Cut ``data`` (everything the socket accepted during one call of the bench) into packets the
+    RFC 4253 way: every packet is judged by all clauses; it must carry ``payload`` (exactly once; None =
+    not expected here) or the keepalive request paramiko's keepalive timer sends.  Returns None or a
+    failure tuple."""
+    ref.feed(data)
+    seen = payload is None
+    while ref.pending() or not seen:
+        left = ref.pending()
+        try:
+            _seq, got, _pad = ref.rx.next_packet()
+        except R.NeedMore:
+            return fail("total-length", "%s: the wire ends inside a packet (%d bytes left)" % (what, left))
+        except R.RefError as e:
+            return fail("ref-decode:" + "-".join(str(e).split(" ")[:2]), "%s, %d wire bytes left: %s" % (what, left, e))
+        info = ref.rx.last_info
+        used = left - ref.pending()
+        if used != 4 + info["packet_length"] + want_mac:
+            return fail("total-length", "%s: %d wire bytes != 4 + %d + %d" % (what, used, info["packet_length"], want_mac))
+        if not 4 <= info["padding"] <= 255:
+            return fail("padding-range", "%s: padding %d" % (what, info["padding"]))
+        if info["encrypted_span"] % bs:
+            return fail("block-alignment", "%s: encrypted span %d not a multiple of %d" % (what, info["encrypted_span"], bs))
+        if info["packet_length"] != 1 + info["raw_payload_len"] + info["padding"]:
+            return fail("length-field", "%s: packet_length %d != 1 + %d + %d" % (what, info["packet_length"], info["raw_payload_len"], info["padding"]))
+        if not seen and got == payload:
+            seen = True
+            if not compressed and info["raw_payload_len"] != len(payload):
+                return fail("length-field", "%s: %d payload bytes inside the packet" % (what, info["raw_payload_len"]))
+        elif got == KEEPALIVE:
+            stats["keepalive-packets"] += 1
+        else:
+            return fail("payload", "%s: a packet with %d payload bytes (type %s) that is neither the message sent nor a keepalive request" % (what, len(got), got[:1].hex()))
+    return None
+
+
+def _measure(sender, ref, keys, dname, api, lengths, seed, residues, ka_on=False, inbound=None, stats=None, ctx=None):
     """Send ``lengths`` under the current keys and check every packet; returns (bad, index)."""
+    stats = stats if stats is not None else {"keepalive-packets": 0, "inbound-read": 0}
     cipher = mac = None
     comp = "none"
     if keys is not None:
@@ -254,6 +456,18 @@ def _measure(sender, ref, keys, dname, api, lengths, seed, residues):
             bad = fail("send-raises", "len %d: %r [%s]" % (L, e, pkt.exc_bucket(e)))
             break
         chunks = sender.drain()
+        if ka_on:
+            # a keepalive timer is running: the bytes of this call may hold keepalive packets besides the message
+            bad = _cut(ref, b"".join(chunks), payload, bs, want_mac, compressed, stats, fail, "payload %d" % L)
+            if bad:
+                break
+            if not compressed:
+                residues.add(L % bs)
+            if inbound and not _inbound(sender, ref, inbound, i, bs, want_mac, compressed, stats, fail, ctx):
+                bad = stats.pop("bad", None)
+                if bad:
+                    break
+            continue
         if len(chunks) != 1:
             bad = fail("chunks", "payload %d: %d socket writes" % (L, len(chunks)))
             break
@@ -286,7 +500,40 @@ def _measure(sender, ref, keys, dname, api, lengths, seed, residues):
             break
         if not compressed:
             residues.add(L % bs)
+        if inbound and not _inbound(sender, ref, inbound, i, bs, want_mac, compressed, stats, fail, ctx):
+            bad = stats.pop("bad", None)
+            if bad:
+                break
     return bad, i
+
+
+def _inbound(sender, ref, inbound, i, bs, want_mac, compressed, stats, fail, ctx):
+    """After every ``every``-th packet the reference peer sends one message and the sender reads it
+    (recv timeout script of its socket).  Whatever the sender WROTE meanwhile (a keepalive that was
+    due) is cut and judged like any other outgoing packet.  False = stop (stats["bad"] set for a
+    violation; an unreadable inbound message is C01's business: inconclusive, inbound traffic ends)."""
+    if stats.get("inbound-off") or (i + 1) % int(inbound["every"]):
+        return True
+    msg = b"\x02" + R.string(b"in-%d" % i)
+    ref.send(msg)
+    sender.feed(b"".join(ref.drain()))
+    try:
+        got = sender.recv()
+    except Exception:
+        got = None
+    if got != (msg[0], msg[1:]):
+        stats["inbound-off"] = True
+        if ctx is not None:
+            ctx.inconc("inbound-message-not-read-by-the-sender")
+    else:
+        stats["inbound-read"] += 1
+    wrote = b"".join(sender.drain())
+    if wrote:
+        bad = _cut(ref, wrote, None, bs, want_mac, compressed, stats, fail, "written while reading inbound message after packet %d" % i)
+        if bad:
+            stats["bad"] = bad
+            return False
+    return True
 
 
 def concurrent_strategy(lo, hi):
@@ -302,6 +549,7 @@ def concurrent_strategy(lo, hi):
             "threads": st.lists(X.thread_plan(lo, hi), min_size=2, max_size=3),
             "switch": X.switch,
             "sends": st.one_of(st.just([]), X.sends_on, X.sends_on.map(lambda v: v)),
+            "hexdump": st.sampled_from([0, 0, 0, 1, 2]),
         }
     ).map(pkt.norm_case)
 
@@ -345,7 +593,12 @@ def _judge_wire(ref, plans, cipher, mac, compressed):
 
 
 def execute_concurrent(ctx, case):
-    """case = {"kind": "concurrent", "keys", "role", "threads": [[type, n, max_body, seed], ...],
+    with _debug_logger(int(case.get("hexdump") or 0) == 2):
+        return _execute_concurrent(ctx, case)
+
+
+def _execute_concurrent(ctx, case):
+    """case = {"kind": "concurrent", "hexdump": 0|1|2, "keys", "role", "threads": [[type, n, max_body, seed], ...],
     "switch": interpreter switch interval, "sends": send script}.  Real threads: the interleaving
     is whatever the interpreter produces; the verdict does not depend on it (every packet on the
     wire is judged on its own, the threads' relative order is free)."""
@@ -357,6 +610,9 @@ def execute_concurrent(ctx, case):
     compressed = comp != "none"
     fc = pkt.framing_class(cipher, mac) + ("+z" if compressed else "")
     sender = pkt.PPeer(role, sends=case.get("sends") or ())
+    hexdump = int(case.get("hexdump") or 0)
+    if hexdump:
+        sender.t.set_hexdump(True)
     ref = pkt.RPeer(other)
     plans = [pktx.thread_payloads(k, plan) for k, plan in enumerate(case["threads"])]
     bad = None
@@ -385,7 +641,7 @@ def execute_concurrent(ctx, case):
         send_stats = dict(sender.sock.send_stats)
         sender.close()
     classes = ["api:send", "concurrent-senders", "threads:%d" % len(plans), "framing:" + pkt.framing_class(cipher, mac), "role:" + role, "comp:" + comp]
-    classes += ["cipher:" + cipher, "mac:" + mac, "switch-interval:%g" % case["switch"], "sender-keyed-in-both-directions"]
+    classes += ["cipher:" + cipher, "mac:" + mac, "switch-interval:%g" % case["switch"], "sender-keyed-in-both-directions", "hexdump:" + ("off", "on", "on+debug-logger")[hexdump]]
     classes += pkt.asymmetry_classes(keys)
     sc = pktx.send_classes(send_stats)
     classes += sc
@@ -460,22 +716,42 @@ def run(ctx):
         hs = [bytes(e["keys"]["H"]) for e in case["prev"]] + [bytes(case["keys"]["H"])]
         return len(set(hs)) == len(hs)
 
-    strat = (
-        st.fixed_dictionaries(
-            {
-                "keys": S.keys(),
-                "prev": earlier,
-                "role": st.sampled_from(["client", "server"]),
-                "api": st.sampled_from(["send", "send", "build"]),
-                "lengths": lens,
-                "seed": st.integers(0, 1000),
-                "sends": X.sends,
-            }
+    # configuration of the sender: hex dump of the traffic (off / on / on with a DEBUG-level logger that has a handler),
+    # keepalive timer [interval, how long a not-ready socket event lasts] (due while the socket stalls / never due),
+    # inbound messages read between the sends through a recv timeout script.  With the hex dump on the generated
+    # lengths stay below 9000 bytes (paramiko formats every byte of every packet: 1.6 us per byte).
+    lens_dump = st.lists(st.one_of(st.integers(1, 200), st.integers(1, 9000), st.integers(900, 3000)), min_size=1, max_size=6)
+    inbound = st.one_of(st.none(), st.fixed_dictionaries({"every": st.integers(1, 3), "timeouts": S.timeouts}))
+    keepalive = st.tuples(st.sampled_from([[0.001, 0.004], [0.001, 0.004], [0.0005, 0.003], [0.05, 0.001]]), st.sampled_from(["transport", "packetizer"])).map(lambda t: t[0] + [t[1]])
+
+    def generated(timers):
+        return (
+            st.sampled_from([0, 0, 0, 1, 2])
+            .flatmap(
+                lambda h: st.fixed_dictionaries(
+                    {
+                        "keys": S.keys(),
+                        "prev": earlier,
+                        "role": st.sampled_from(["client", "server"]),
+                        "api": st.just("send") if timers else st.sampled_from(["send", "send", "build"]),
+                        "lengths": lens_dump if h else lens,
+                        "seed": st.integers(0, 1000),
+                        "sends": st.one_of(X.sends, X.sends_on) if timers else X.sends,
+                        "hexdump": st.just(h),
+                        "keepalive": keepalive if timers else st.none(),
+                        "inbound": inbound if timers else st.none(),
+                    }
+                )
+            )
+            .filter(distinct_h)
+            .map(pkt.norm_case)
         )
-        .filter(distinct_h)
-        .map(pkt.norm_case)
-    )
-    ctx.explore(strat, lambda case: execute(ctx, case), ctx.scale(400, 10000))
+
+    ctx.explore(generated(False), lambda case: execute(ctx, case), ctx.scale(300, 8000))
+    # senders with a keepalive timer (real time passes while the socket is not ready): a timing engine,
+    # collect-then-continue, no shrinking (a sender that hangs costs HANG_TIMEOUT_SHORT once, not once per shrink step)
+    if not ctx.unknown:
+        ctx.explore(generated(True), lambda case: None if ctx.unknown else execute(ctx, case), ctx.scale(120, 2500), shrink=False, seed_offset=77)
 
     # -- long-lived senders: one keyed Packetizer, many packets, every cipher x MAC style
     if ctx.quick:
@@ -504,6 +780,10 @@ def run(ctx):
                 "lengths": st.fixed_dictionaries({"n": st.just(n_long), "max": st.integers(8, 64), "seed": st.integers(0, 1 << 20)}),
                 "seed": st.integers(0, 1000),
                 "sends": st.one_of(st.just([]), X.sends),
+                # configuration cycles with the suite index and the run seed: every setting occurs in every run
+                "hexdump": st.just((0, 1, 0, 2)[(idx + ctx.seed) % 4]),
+                "keepalive": st.just((None, [0.001, 0.004, "transport"], None, [0.001, 0.004, "packetizer"])[(idx // 4 + idx + ctx.seed) % 4]),
+                "inbound": st.one_of(st.none(), st.fixed_dictionaries({"every": st.integers(40, 120), "timeouts": S.timeouts})),
             }
         ).map(pkt.norm_case)
         ctx.explore(lstrat, lambda case: execute(ctx, case), ctx.scale(1, 3), shrink=False, seed_offset=300 + idx)
